@@ -389,8 +389,8 @@ def startsDecl : Tok → Bool
   | .kwInclude | .hash | .kwCategory | .kwAssociations => true
   | _ => false
 
-/-- `(declaration)+` — stops (without error, as the grammar has no EOF there) at the first token that cannot
-start a declaration -/
+/-- `(declaration)+` as the generated ANTLR parser runs it — stops (without error, as the grammar has no EOF
+there) at the first token that cannot start a declaration -/
 def parseDecls : Nat → List Decl → List Tok → Option (List Decl)
   | 0, _, _ => none
   | f+1, acc, ts =>
@@ -403,8 +403,10 @@ def parseDecls : Nat → List Decl → List Tok → Option (List Decl)
         | none => none
       else some acc
 
-/-- `mal: (declaration)+ | EOF` -/
-def parseMal (ts : List Tok) : Option (List Decl) :=
+/-- `mal: (declaration)+ | EOF` **as written in `mal.g4`** (no `EOF` after the declarations): what `parser.mal()`
+accepts — a *prefix* of the token list.  Until commit e0054c2 this was all `MalCompiler.compile` asked for; it is
+kept because it still describes the generated parser (and documents the repaired defect, `Props/C17.lean`). -/
+def parseMalPrefix (ts : List Tok) : Option (List Decl) :=
   match ts with
   | [] => some []
   | t :: _ => if startsDecl t then parseDecls (2 * ts.length + 8) [] ts else none
@@ -422,24 +424,61 @@ def parseDeclsRest : Nat → List Decl → List Tok → Option (List Decl × Lis
         | none => none
       else some (acc, ts)
 
+/-- `parser.mal()`: the declarations of the prefix the start rule consumes, and the tokens it leaves in the stream -/
 def parseMalRest (ts : List Tok) : Option (List Decl × List Tok) :=
   match ts with
   | [] => some ([], [])
   | t :: _ => if startsDecl t then parseDeclsRest (2 * ts.length + 8) [] ts else none
 
-/-- **What the ANTLR front end makes of a source text.**  If the whole text lexes, the token list is parsed.  If it
-does not, the parser still sees the tokens in front of the first lexing error, fetched on demand: the start rule
-`mal` has no `EOF`, so the parser stops at the first token that does not start a declaration — when such a token
-exists *before* the error, the lexer is never asked for the erroneous text and no error is reported (neither by a
-counting listener nor by the compiler's raising listener).  When the parser consumes everything in front of the
-error, its next look-ahead is the erroneous text and the error is reported. -/
-def parseSource (src : String) : Option (List Decl) :=
+/-- **The compiler's verdict on a token list** (`MalCompiler.compile` since e0054c2): `parser.mal()` must succeed
+*and* the next token must be `EOF` (`stream.LA(1) == Token.EOF`, otherwise `MalCompilerError: extraneous input`).
+The whole token list is a sequence of declarations, or it is rejected. -/
+def parseMal (ts : List Tok) : Option (List Decl) :=
+  match parseMalRest ts with
+  | some (ds, []) => some ds
+  | _ => none
+
+/-- **The compiler's verdict on a source text**: the text must lex completely and its tokens must be accepted by
+`parseMal`.
+
+ANTLR's token stream fetches tokens on demand, so for a text with a lexical error the real front end goes one of
+three ways (`frontEnd` below spells them out): the parser fails on the tokens in front of the error; or it stops in
+front of the error at a token that cannot start a declaration — `extraneous input` since e0054c2; or it consumes
+every token in front of the error and fetches the erroneous text as look-ahead — the lexer's listener raises.
+All three are errors, hence the simple definition (`frontEnd_accepts_iff` in `Proofs/ParseDecl.lean`). -/
+def parseSource (src : String) : Option (List Decl) := (lex src).bind parseMal
+
+/-- what the front end did before e0054c2 (no `EOF` check; the lexing error is only reported if it is fetched):
+kept to state the repaired defect (`Props/C17.lean`, `prefix_variant_*`) -/
+def parseSourcePrefix (src : String) : Option (List Decl) :=
   match lex src with
-  | some ts => parseMal ts
+  | some ts => parseMalPrefix ts
   | none =>
     match parseMalRest (lexPrefix src) with
     | some (ds, _ :: _) => some ds
     | _ => none
+
+/-- how `MalCompiler.compile` ends on one file, with the control flow of the on-demand token stream -/
+inductive FrontEnd
+  | spec (ds : List Decl)      -- `parser.mal()` succeeded and the next token is `EOF`
+  | syntaxError                -- the parser's listener raised
+  | extraneousInput            -- `parser.mal()` succeeded, `stream.LA(1) != Token.EOF`
+  | lexError                   -- the lexer's listener raised when the look-ahead token was fetched
+  deriving Repr, Inhabited
+
+def frontEnd (src : String) : FrontEnd :=
+  match lex src with
+  | some ts =>
+    match parseMalRest ts with
+    | none => .syntaxError
+    | some (ds, []) => .spec ds
+    | some (_, _ :: _) => .extraneousInput
+  | none =>
+    -- the parser sees the tokens in front of the first lexing error
+    match parseMalRest (lexPrefix src) with
+    | none => .syntaxError
+    | some (_, _ :: _) => .extraneousInput
+    | some (_, []) => .lexError
 
 /-! ### `visitMal`: assembling the specification, includes, de-duplication -/
 
